@@ -347,6 +347,10 @@ def _eval_stretch(case):
                 mi = core.ints(drv['int'])
                 if mi != [int(v) for v in yl]:
                     f.append(dict(kind='model', key='stretch:model-trunc', detail=dict(channel=ci)))
+                # the exact truncation `truncQ` (the one C20_stretch_int_cast is proved about) on the exact
+                # rational values of the same doubles: must agree with the Float cast `truncF`
+                elif 'intq' in drv and core.ints(drv['intq']) != mi:
+                    f.append(dict(kind='model', key='stretch:model-truncq', detail=dict(channel=ci)))
     return dict(findings=f, nontrivial=nontriv, sig=json.dumps(case, sort_keys=True),
                 tags=dict(kind='stretch_rgb' if case.get('rgb') else 'stretch', dtype=case['dtype'], out=case['out'],
                           form=form, layout=case.get('layout', 'C'), cls=case.get('cls', 'random')))
